@@ -63,6 +63,18 @@ M = {
                     'AND looks at its first two arguments only'),
     'c11-text-digits-numeric': ('C11', [(CTX, "def _only_numeric_list(flatten_list: List, with_string_digits: bool = False):", "def _only_numeric_list(flatten_list: List, with_string_digits: bool = True):")],
                                 'numeric-looking text inside areas is folded as if it were a number'),
+    'c13-swap-branches-default': ('C13', [(SRC + 'translators/if_cc_token_translator.py', "if token.when_false else 'False'", "if token.when_false else 'True'")],
+                                  'IF without else-branch yields TRUE instead of FALSE'),
+    'c13-if-eager': ('C13', [(SRC + 'translators/if_cc_token_translator.py', "return f'(({when_true}) if ({condition}) else ({when_false}))'", "return f'(({when_true}), ({when_false}))[0 if ({condition}) else 1]'")],
+                     'IF evaluates both branches (tuple indexing): an error in the branch not taken surfaces'),
+    'c13-iferror-eager': ('C13', [(SRC + 'translators/iferror_cc_token_translator.py', "lambda: {condition}, lambda: {when_error})", "lambda: {condition}, {when_error})")],
+                          'IFERROR fallback evaluated eagerly (the repaired defect)'),
+    'c13-ifs-error-anywhere': ('C13', [(CTX, "            condition = value_of(flatten_list[index])\n", "            condition = value_of(flatten_list[index])\n            if index == 0 and self._find_error_in_list([value_of(i) for i in flatten_list[1::2]]):\n                return self._find_error_in_list([value_of(i) for i in flatten_list[1::2]])\n")],
+                               'IFS scans all values for error texts first (the repaired defect)'),
+    'c13-ifs-no-match-value': ('C13', [(CTX, "            index += 2\n\n        return '#N/A'\n\n\n    def _search", "            index += 2\n\n        return '#VALUE!'\n\n\n    def _search")],
+                               'IFS without a true condition returns #VALUE! instead of #N/A'),
+    'c13-iferror-only-exceptions': ('C13', [(CTX, "            is_error = bool(self._find_error_in_list([cell]))", "            is_error = False")],
+                                    'IFERROR only catches failures, not error values'),
 }
 
 
